@@ -1676,6 +1676,54 @@ class Interp:
         scope.frame.yields.extend(self.iterate(v))
         return None
 
+    def lazy_any_all(self, is_any, gen, scope):
+        """any()/all() over a generator expression with CPython's laziness: evaluation of later elements stops once
+        the result is decided.  A symbolic accumulated result forks only when the next element cannot be evaluated
+        speculatively (it has side effects or may raise); otherwise it is folded into one Or / And."""
+
+        class _Stop(Exception):
+            pass
+
+        state = {"acc": (False if is_any else True)}  # python bool or z3 Bool: "result already decided"
+
+        def decided():
+            a = state["acc"]
+            return a if isinstance(a, bool) else None
+
+        def body_for(sc):
+            a = state["acc"]
+            if isinstance(a, bool):
+                if a == is_any:
+                    raise _Stop()
+                x = self.cond_term(self.eval(gen.elt, sc))
+            else:
+                guard = z3.Not(a) if is_any else a  # evaluation reaches this element only if undecided so far
+                try:
+                    if os.environ.get("PYVC_NO_MERGE"):
+                        raise MergeFail("merge disabled")
+                    x = self.speculate(guard, lambda: self.cond_term(self.eval(gen.elt, sc)))
+                except MergeFail:
+                    if not self.ctx.decide(guard):
+                        state["acc"] = is_any
+                        raise _Stop()
+                    state["acc"] = (not is_any)
+                    x = self.cond_term(self.eval(gen.elt, sc))
+                    a = state["acc"]
+            a = state["acc"]
+            if is_any:
+                state["acc"] = ops.r_or([a if isinstance(a, bool) else SV(a), x if isinstance(x, bool) else SV(x)])
+            else:
+                state["acc"] = ops.r_and([a if isinstance(a, bool) else SV(a), x if isinstance(x, bool) else SV(x)])
+            if isinstance(state["acc"], SV):
+                state["acc"] = state["acc"].t
+
+        try:
+            self.comp_iter(gen.generators, scope, body_for)
+        except _Stop:
+            pass
+        r = state["acc"]
+        return r if isinstance(r, bool) else ops.simp(r)
+
     def ex_Starred(self, e, scope):
         raise Unsupported("starred expression outside call/display")
 
@@ -1737,6 +1785,9 @@ class Interp:
             if fr is None or fr.func is None or fr.func.owner is None:
                 raise Unsupported("super() outside method")
             return SuperV(fr.func.owner, fr.self_obj)
+        if (isinstance(e.func, ast.Name) and e.func.id in ("any", "all") and len(e.args) == 1 and not e.keywords
+                and isinstance(e.args[0], ast.GeneratorExp) and self.load_name(e.func.id, scope) is self.builtins[e.func.id]):
+            return self.lazy_any_all(e.func.id == "any", e.args[0], scope)
         f = self.eval(e.func, scope)
         args = []
         for a in e.args:
